@@ -452,7 +452,12 @@ class AdvancedHTMLParser(HTMLParser):
         if type(attrValues) != set:
             attrValues = set(attrValues)
 
-        return root.getElementsWithAttrValues(attrName, attrValues)
+        elements = root.getElementsWithAttrValues(attrName, attrValues)
+
+        if isFromRoot is True and root.getAttribute(attrName) in attrValues:
+            elements = TagCollection([root]) + elements
+
+        return elements
 
 
     def getElementsCustomFilter(self, filterFunc, root='root'):
